@@ -46,8 +46,8 @@ def rules(ctx):
     from .C07 import no_metadata_reads
     ctx.rule('R06.6', "no function reachable from a gate method reads the display metadata `name` of an operand", floor=16)
     no_metadata_reads(ctx, 'R06.6', [(fn, 'PCBO') for fn in meths.values()])
-    C02.merge_discipline(ctx, 'R06.5', list(meths.values()) + [P.func('PCBO.add_constraint_eq_zero'),
-                                                               P.func('_pcbo._special_constraints_eq_zero')])
+    C02.merge_discipline(ctx, 'R06.5', list(meths.values()) + [P.func('PCBO.add_constraint_eq_zero')] +
+                         P.opt_funcs(['_pcbo._special_constraints_eq_zero']))
     C02.recorded_copy_rules(ctx, E, P.func('PCBO.add_constraint_eq_zero'), 'R06.5', 'R06.5', 'PUBO')
     C02.record_not_shared(ctx, 'R06.5')
     C02.record_helpers(ctx, 'R06.5')
